@@ -509,13 +509,13 @@ impl Pager {
 
         // We need to ensure that the frame is free
         if let Some(mem_page) = self.cache.remove(id) {
-            let page_size = self.page_size();
-
             // [MemPage::dealloc] consumes itself and creates a new MemPage with an overflow header.
             let deallocated_page = mem_page.dealloc();
 
-            // Here the write needs to write as an overflow page , regardless of the value of [P]
-            deallocated_page.with_bytes(|bytes| self.write_block(id, bytes, page_size))?;
+            // The freed page goes back to the cache as a dirty overflow page. It reaches the disk
+            // with the other dirty pages: written at once it would overwrite a page the last
+            // checkpoint still refers to while the log can no longer bring it back.
+            deallocated_page.mark_dirty();
             self.cache_frame(deallocated_page)?;
         };
 
